@@ -586,6 +586,7 @@ pub fn run(ctx: &Ctx) {
     ctx.enumerate("F2-F7-family-instances", family_singles(), false, &oracle);
     ctx.enumerate("S3-doubling-pairs", doubling_cases(), false, &oracle);
     ctx.search("F8-hostile-histories", ctx.n(200_000, 15_000_000), &gen::hostile_case, &oracle);
+    ctx.search("F8-datagram-sized-stress-cases-mutated", ctx.n(320, 10_000), &super::c01::stress_mut_case, &oracle);
     let c = StreamCfg::small(Mix { fixed: 1, v9: 3, ipfix: 3 });
     ctx.search("F8-conformant-histories", ctx.n(50_000, 4_000_000), &move || gen::conformant_case(c, BuildOpts::WIDE), &oracle);
     let big = StreamCfg { max_recs: 60, max_sets: 8, pkts_per_call: (2, 6), ..c };
